@@ -879,13 +879,20 @@ impl<'g, 's> LRTable<'g, 's> {
                                     // For LR parsing non-empty reductions are
                                     // preferred over empty...
                                     if let ParserAlgo::LR = self.settings.parser_algo {
-                                        // ... so remove all empty reductions.
-                                        actions.retain(
-                                            |x| !matches!(x, Action::Reduce(_, len) if *len == 0),
-                                        );
-
-                                        if item.prod_len > 0 || actions.is_empty() {
-                                            // If current reduction is non-empty add it.
+                                        if item.prod_len > 0 {
+                                            // ... so current non-empty reduction
+                                            // replaces all empty reductions.
+                                            actions.retain(
+                                                |x| !matches!(x, Action::Reduce(_, len) if *len == 0),
+                                            );
+                                            actions.push(new_reduce.clone())
+                                        } else if !actions.iter().any(
+                                            |x| matches!(x, Action::Reduce(_, len) if *len > 0),
+                                        ) {
+                                            // Only empty reductions compete.
+                                            // This R/R conflict can't be
+                                            // resolved. Keep all of them to be
+                                            // reported.
                                             actions.push(new_reduce.clone())
                                         }
                                     } else {
